@@ -121,6 +121,7 @@ class Walker:
         self.O = self.L = 8
         self.sb = {}
         self.checks = []        # (kind, addr, algo, covered_start, covered_end, stored) checksum facts for the tie
+        self.lenient_nested_float = False   # histlib: only class/size of a floating-point member matter, not its property bytes
 
     # -- primitives
     def rd(self, off, n, what):
@@ -423,6 +424,36 @@ class Walker:
 
     # -- messages: datatype, dataspace, layout, pipeline
     def datatype(self, d, where, pad_ok=False):
+        """a complete datatype message (or the base type description that ends a variable-length type)"""
+        t, p = self._dtype(d, where, pad_ok, top=True)
+        cls = t["cls"]
+        rest = d[p:]
+        if len(rest) and not (pad_ok and len(rest) < 8 and not any(rest)):
+            tag = "string-extra-prop-byte" if cls == 3 else "datatype-trailing-bytes"
+            self.deviate(tag, where, "%d byte(s) %s follow the datatype description (class %d has %d property bytes)" % (len(rest), bytes(rest[:8]).hex(), cls, p - 8))
+        return t
+
+    def _cstr(self, d, p, where, what, pad8):
+        """NUL-terminated name at d[p:]; pad8: the name field (name + NUL) is zero-padded to a multiple of 8 bytes"""
+        e = p
+        while e < len(d) and d[e] != 0:
+            e += 1
+        if e >= len(d):
+            raise SpecError("%s: %s is not NUL-terminated" % (where, what))
+        if e == p:
+            raise SpecError("%s: empty %s" % (where, what))
+        nm = bytes(d[p:e])
+        q = e + 1
+        if pad8:
+            q2 = p + (((q - p) + 7) // 8) * 8
+            if q2 > len(d) or any(d[q:q2]):
+                raise SpecError("%s: %s %r is not zero-padded to a multiple of 8 bytes" % (where, what, nm))
+            q = q2
+        return nm, q
+
+    def _dtype(self, d, where, pad_ok=False, top=False):
+        """one datatype description at the start of d -> (description, number of bytes it occupies).
+        IV.A.2.d: class+version (1) | class bit field (3) | size (4) | properties (per class)."""
         if len(d) < 8:
             raise SpecError("%s: datatype message of %d bytes" % (where, len(d)))
         cls, ver = d[0] & 0x0F, d[0] >> 4
@@ -445,6 +476,7 @@ class Walker:
             p = 12
             if prec == 0 or off + prec > 8 * size:
                 self.deviate("fixed-props-malformed", where, "bit offset %d, precision %d for a %d-byte integer (specification: u16 offset, u16 precision; expected 0 and %d)" % (off, prec, size, 8 * size))
+                t["malformed"] = True
             t["precision"] = prec
         elif cls == 1:
             if bits & 0xFF0080 & ~0xFF00:
@@ -461,6 +493,19 @@ class Walker:
             ieee = {4: (0, 32, 23, 8, 0, 23, 127, 31, 2), 8: (0, 64, 52, 11, 0, 52, 1023, 63, 2)}.get(size)
             got = (off, prec, eloc, esz, mloc, msz, bias, sign, norm)
             if ieee is None or got != ieee:
+                if not top and not self.lenient_nested_float:
+                    # inside another datatype only the two private layouts this writer is known to use are interpreted;
+                    # anything else has no reading as a floating-point description
+                    priv = {4: bytes([bits & 1, 32, 0, 8, 23, 127, 0, 0, 0, 0, 0, 0]), 8: bytes([bits & 1, 64, 0, 11, 52, 127, 0, 0, 0, 0, 0, 0])}.get(size)
+                    fields_ok = norm < 3 and prec > 0 and off + prec <= 8 * size and esz > 0 and msz > 0 and eloc + esz <= prec and \
+                        mloc + msz <= prec and sign < prec and (mloc + msz <= eloc or eloc + esz <= mloc) and \
+                        not (eloc <= sign < eloc + esz) and not (mloc <= sign < mloc + msz)
+                    if not fields_ok and (bits > 1 or bytes(d[8:20]) != priv):
+                        raise SpecError("%s: floating-point member description (size %d, class bits %#x, properties %s) is neither a consistent "
+                                        "bit-field layout nor one of the writer's listed private layouts" % (where, size, bits, bytes(d[8:20]).hex()))
+                    if fields_ok:
+                        t["order"] = "BE" if bits & 1 else "LE"
+                        return t, p
                 self.deviate("float-props-malformed", where, "size %d: (bit offset, precision, exp location, exp size, mantissa location, mantissa size, bias, sign location, normalisation) = %s, IEEE little-endian requires %s" % (size, got, ieee))
                 # the private layout this writer uses: [order, bits, 0, exp bits, mantissa bits, bias]
                 if size == 8 and d[9] == 64 and d[11] == 11 and d[12] == 52 and d[13] == 127:
@@ -470,15 +515,26 @@ class Walker:
             if pad > 2 or cset > 1 or bits >> 8:
                 raise SpecError("%s: string class bits %#x" % (where, bits))
             t["pad"], t["cset"] = pad, cset
+            if not top and self.lenient_nested_float and bytes(d[8:9]) == b"\x00":
+                p = 9       # histlib: the writer's extra string property byte, wherever the member stands
+            elif not top and not pad_ok and bytes(d[8:]) == b"\x00":
+                # the last description inside another datatype, followed by exactly one zero byte that ends the message
+                self.deviate("string-extra-prop-byte", where, "1 byte 00 follows the string description that ends the datatype (class 3 has no property bytes)")
+                p = 9
         elif cls == 5:
             tl = bits & 0xFF
-            if tl % 8 or len(d) < 8 + tl:
+            if tl % 8 or len(d) < 8 + tl or bits >> 8:
                 raise SpecError("%s: opaque tag length %d" % (where, tl))
             t["tag"] = bytes(d[8:8 + tl]).rstrip(b"\x00")
+            t["tagraw"] = bytes(d[8:8 + tl])
             p = 8 + tl
+        elif cls == 6:
+            p = self._compound(d, t, where, pad_ok)
         elif cls == 7:
-            if (bits & 0xF) > 1:
+            if bits > 1:
                 raise SpecError("%s: reference type %d" % (where, bits & 0xF))
+        elif cls == 8:
+            p = self._enum(d, t, where, pad_ok, top)
         elif cls == 9:
             vt, vpad, vcs = bits & 0xF, (bits >> 4) & 0xF, (bits >> 8) & 0xF
             if vt > 1 or vpad > 2 or vcs > 1 or bits >> 12:
@@ -486,17 +542,143 @@ class Walker:
             if size != 4 + self.O + 4:
                 raise SpecError("%s: variable-length element size %d (length + global heap ID = %d)" % (where, size, 8 + self.O))
             t["vlen"] = "string" if vt == 1 else "sequence"
-            t["base"] = self.datatype(d[8:], where + " base type", pad_ok)
+            if top:
+                t["base"] = self.datatype(d[8:], where + " base type", pad_ok)
+                p = len(d)
+            else:
+                t["base"], n = self._dtype(d[8:], where + " base type", pad_ok)
+                p = 8 + n
             if vt == 1 and (t["base"]["cls"], t["base"]["size"]) != (3, 1):
                 raise SpecError("%s: variable-length string whose base type is class %d size %d" % (where, t["base"]["cls"], t["base"]["size"]))
-            p = len(d)
+        elif cls == 10:
+            # v2: dimensionality (1) | reserved (3) | dimension sizes (4 each) | permutation indices (4 each) | base type
+            # v3: dimensionality (1) | dimension sizes (4 each) | base type           (no arrays in version 1)
+            if bits or ver < 2:
+                raise SpecError("%s: array datatype with class bits %#x, version %d" % (where, bits, ver))
+            if len(d) < 9:
+                raise SpecError("%s: array properties truncated" % where)
+            nd = d[8]
+            p = 9
+            if not 0 < nd <= 32:
+                raise SpecError("%s: array dimensionality %d" % (where, nd))
+            if ver == 2:
+                if len(d) < p + 3 or any(d[p:p + 3]):
+                    raise SpecError("%s: array v2 reserved bytes" % where)
+                p += 3
+            if len(d) < p + 4 * nd * (2 if ver == 2 else 1):
+                raise SpecError("%s: array dimensions truncated" % where)
+            t["adims"] = [int.from_bytes(d[p + 4 * i:p + 4 * i + 4], "little") for i in range(nd)]
+            p += 4 * nd * (2 if ver == 2 else 1)
+            t["base"], n = self._dtype(d[p:], where + " array base type", pad_ok)
+            p += n
+            if prod(t["adims"]) * t["base"]["size"] != size:
+                raise SpecError("%s: array of %s elements of %d bytes declares size %d" % (where, t["adims"], t["base"]["size"], size))
         else:
             raise Unsupported("%s: datatype class %d" % (where, cls))
-        rest = d[p:]
-        if len(rest) and not (pad_ok and len(rest) < 8 and not any(rest)):
-            tag = "string-extra-prop-byte" if cls == 3 else "datatype-trailing-bytes"
-            self.deviate(tag, where, "%d byte(s) %s follow the datatype description (class %d has %d property bytes)" % (len(rest), bytes(rest[:8]).hex(), cls, p - 8))
-        return t
+        return t, p
+
+    def _compound(self, d, t, where, pad_ok):
+        """class 6.  class bits 0-15: number of members.  member: name (NUL-terminated; versions 1, 2: padded to a multiple of 8) |
+        byte offset (versions 1, 2: 4 bytes; version 3: the minimum number of bytes the datatype size needs) |
+        [version 1: dimensionality (1), reserved (3), dimension permutation (4), reserved (4), 4 dimension sizes (4 each)] | member type"""
+        ver, bits, size = t["version"], t["bits"], t["size"]
+        if bits >> 16:
+            raise SpecError("%s: compound class bits %#x use reserved bits" % (where, bits))
+        p = 8
+        n, ow = bits, (nbytes_for(size) if ver == 3 else 4)
+        if ver == 3 and bits == 0:
+            # tolerated departure: no member count in the class bits; a 4-byte count leads the member list and member
+            # offsets take 4 bytes whatever the datatype size
+            if len(d) < 12:
+                raise SpecError("%s: compound with 0 members" % where)
+            n = int.from_bytes(d[8:12], "little")
+            if not 0 < n < 65536:
+                raise SpecError("%s: compound with 0 members in the class bits and leading count %d" % (where, n))
+            self.deviate("compound-v3-layout", where, "version 3 compound with class bits 0 (number of members), a 4-byte member count %d in front of the "
+                         "member list and 4-byte member offsets (specification: count in class bits 0-15, %d-byte offsets for size %d)" % (n, nbytes_for(size), size))
+            p, ow = 12, 4
+        elif n == 0:
+            raise SpecError("%s: compound with 0 members" % where)
+        ms = []
+        for i in range(n):
+            nm, p = self._cstr(d, p, where, "name of compound member %d" % i, ver < 3)
+            if len(d) < p + ow:
+                raise SpecError("%s: compound member %r: offset truncated" % (where, nm))
+            off = int.from_bytes(d[p:p + ow], "little")
+            p += ow
+            if ver == 1:
+                if len(d) < p + 28:
+                    raise SpecError("%s: compound member %r: version 1 array fields truncated" % (where, nm))
+                if d[p] > 4 or any(d[p + 1:p + 4]) or any(d[p + 8:p + 12]):
+                    raise SpecError("%s: compound member %r: dimensionality %d / reserved bytes" % (where, nm, d[p]))
+                p += 28
+            mt, k = self._dtype(d[p:], "%s member %r" % (where, nm), pad_ok)
+            p += k
+            if off + mt["size"] > size:
+                raise SpecError("%s: compound member %r at offset %d with size %d lies outside the %d-byte compound" % (where, nm, off, mt["size"], size))
+            ms.append(dict(name=nm, off=off, dt=mt))
+        t["members"] = ms
+        return p
+
+    def _enum_pairs(self, d, p, n, size):
+        try:
+            ms = []
+            for i in range(n):
+                nm, p = self._cstr(d, p, "", "name", True)
+                if len(d) < p + size:
+                    return None
+                ms.append((nm, bytes(d[p:p + size])))
+                p += size
+            return ms, p
+        except SpecError:
+            return None
+
+    def _enum(self, d, t, where, pad_ok, top=False):
+        """class 8.  class bits 0-15: number of members.  properties: base type | all names (NUL-terminated; versions 1, 2: each padded to a
+        multiple of 8 bytes; version 3: not padded) | all values (size of the base type each)"""
+        ver, n, size = t["version"], t["bits"], t["size"]
+        if n >> 16:
+            raise SpecError("%s: enumeration class bits %#x use reserved bits" % (where, n))
+        base, k = self._dtype(d[8:], where + " enumeration base type", pad_ok)
+        if base["size"] != size:
+            raise SpecError("%s: enumeration of size %d over a base type of size %d" % (where, size, base["size"]))
+        t["base"] = base
+        p0 = 8 + k
+        try:
+            p, names = p0, []
+            for i in range(n):
+                nm, p = self._cstr(d, p, where, "name of enumeration member %d" % i, ver < 3)
+                names.append(nm)
+            if len(d) < p + n * size:
+                raise SpecError("%s: enumeration values truncated" % where)
+            pe = p + n * size
+            rest = d[pe:]
+            if not (top and ver == 3 and len(rest) and not (pad_ok and len(rest) < 8 and not any(rest))):
+                t["emembers"] = [(nm, bytes(d[p + i * size:p + (i + 1) * size])) for i, nm in enumerate(names)]
+                if top and ver == 3:
+                    alt = self._enum_pairs(d, p0, n, size)
+                    if alt is not None and alt[1] == pe and alt[0] != t["emembers"]:
+                        t["emembers_alt"] = alt[0]      # the same bytes also read as (padded name, value) pairs: ambiguous message
+                return pe
+            # a complete message whose specification reading leaves bytes over: if the (padded name, value) pair reading
+            # accounts for every byte, that is what the message holds
+        except SpecError:
+            if ver != 3:
+                raise
+        # tolerated departure: version 3 members stored as (name zero-padded to a multiple of 8 bytes, value) pairs
+        p, ms = p0, []
+        for i in range(n):
+            nm, p = self._cstr(d, p, where, "name of enumeration member %d" % i, True)
+            if len(d) < p + size:
+                raise SpecError("%s: enumeration member %r: value truncated" % (where, nm))
+            ms.append((nm, bytes(d[p:p + size])))
+            p += size
+        if top and len(d) != p and not (pad_ok and len(d) - p < 8 and not any(d[p:])):
+            raise SpecError("%s: enumeration members account for %d of the %d bytes of the message in neither layout" % (where, p, len(d)))
+        self.deviate("enum-v3-layout", where, "version 3 enumeration stored as %d (name padded to a multiple of 8 bytes, value) pairs; the specification stores all "
+                     "names (not padded) followed by all values" % n)
+        t["emembers"] = ms
+        return p
 
     def dataspace(self, d, where, pad_ok=False):
         L = self.L
